@@ -7,6 +7,7 @@ import AkVerif.Lemmas.GhistBnAll
 import AkVerif.Lemmas.GhistWindow
 import AkVerif.Lemmas.GhistPlugTotal
 import AkVerif.Lemmas.GhistInclSpec
+import AkVerif.Lemmas.GhistExample
 /-!
 # C07 — component builds are reported at the first parent build that ships them
 
@@ -16,7 +17,7 @@ keys of `_COMPONENTS_VERSIONS_LOCATIONS` of repository `a` — components that a
 repositories are ignored (`Edge` asks for `b ∈ ids`).
 -/
 namespace C07
-open Ghist Ghist.Incl Ak
+open Ghist Ghist.Incl Ghist.Ex Ak
 
 /-- **C07.repo_order** — repositories are analysed components first: the order returned is a permutation of the
 supplied repositories in which every component of a repository stands strictly before it. -/
@@ -376,19 +377,68 @@ theorem analysis_total (repos : List RepoIn) (hnd : (repos.map (·.id)).Nodup)
     rw [h1]
     exact ⟨rfl, hc⟩
 
+/-! ## what the driver prints is what the theorems are about -/
+
+/-- **C07.analysis_registrations** — the link between the run of the driver (`analyse`, whose result the driver prints:
+the repositories in analysis order, and under every build the entries `includedAt regs repo iid` = the registrations
+`regs` filtered by component and build) and the objects of the theorems above: the repositories are analysed in the
+order `sortRepos` returns; the graph of the `k`-th one is `rgraph` of its history with the plug made from the graphs
+of the repositories analysed before it that it names as components (`compsOf`) — the `g`, `comps`, `gC` of the
+theorems — and an entry is in `regs` exactly when `regsOfBuild` of a build `b` of a reported branch of an analysed
+repository, for one of its components, produces it. -/
+theorem analysis_registrations (repos : List RepoIn) (as : List Analysed) (regs : List Reg)
+    (h : analyse repos = .ok (as, regs)) :
+    sortRepos (repos.map (·.id)) (depsOf repos) = .ok (as.map (·.id)) ∧
+    (∀ k a, as[k]? = some a → ∃ rr, repos.find? (fun x => x.id == a.id) = some rr ∧
+      rgraph rr.hist (mkPlug (compsOf (as.take k) rr)) = .ok a.graph) ∧
+    ∀ r, r ∈ regs ↔ ∃ k a rr, as[k]? = some a ∧ repos.find? (fun x => x.id == a.id) = some rr ∧
+      ∃ rb ∈ a.graph.branches, ∃ cg ∈ compsOf (as.take k) rr, ∃ b ∈ rb.rbuilds, ∃ l,
+        regsOfBuild a.id rb.name cg.1 cg.2 b = .ok l ∧ r ∈ l := by
+  unfold analyse at h
+  split at h
+  · cases h
+  · rename_i order hord
+    obtain ⟨steps, h1, h2, h3, h4⟩ := analyseAll_steps repos order [] [] as regs h
+    simp only [List.nil_append] at h1 h2 h4
+    subst h1 h2
+    have htake : ∀ k, (steps.map (·.1)).take k = (steps.take k).map (·.1) := fun k => by rw [List.map_take]
+    refine ⟨by rw [hord, ← h3]; simp [List.map_map], ?_, ?_⟩
+    · intro k a hk
+      simp only [List.getElem?_map] at hk
+      cases hs : steps[k]? with
+      | none => rw [hs] at hk; cases hk
+      | some st =>
+        rw [hs] at hk
+        simp only [Option.map_some, Option.some.injEq] at hk
+        subst hk
+        obtain ⟨rr, hf, hg, _⟩ := h4 k st.1 st.2 hs
+        exact ⟨rr, hf, by rw [htake]; exact hg⟩
+    · intro r
+      simp only [List.mem_flatMap]
+      constructor
+      · rintro ⟨st, hst, hr⟩
+        obtain ⟨k, hk⟩ := List.mem_iff_getElem?.mp hst
+        obtain ⟨rr, hf, _, hrs⟩ := h4 k st.1 st.2 hk
+        refine ⟨k, st.1, rr, by simp [List.getElem?_map, hk], hf, ?_⟩
+        rw [htake]
+        exact (mem_registrations hrs r).mp hr
+      · rintro ⟨k, a, rr, hk, hf, hreg⟩
+        simp only [List.getElem?_map] at hk
+        cases hs : steps[k]? with
+        | none => rw [hs] at hk; cases hk
+        | some st =>
+          rw [hs] at hk
+          simp only [Option.map_some, Option.some.injEq] at hk
+          subst hk
+          obtain ⟨rr', hf', _, hrs⟩ := h4 k st.1 st.2 hs
+          rw [hf] at hf'; cases hf'
+          rw [htake] at hreg
+          exact ⟨st, List.mem_of_getElem? hs, (mem_registrations hrs r).mpr hreg⟩
+
 /-! Non-vacuity of the included_at part: a component whose history has a diamond of reported builds
 (10.20.1 ← 10.20.2, 10.20.3 ← 10.20.4; report commits numbered 0, 2, 1, 3 by the DFS) and a parent that pins 10.20.2
 at build 5.1.1 and 10.20.4 at build 5.1.2: the first build ships 10.20.1 and 10.20.2, the second one only what is
 new (10.20.3, 10.20.4) — the diamond does not make 10.20.1 appear again. -/
-def exLib : Hist Pins :=
-  { commits := [⟨[], [⟨10, 20, 1, 1⟩], true, [], 0⟩, ⟨[0], [⟨10, 20, 2, 2⟩], true, [], 0⟩, ⟨[0], [⟨10, 20, 3, 3⟩], true, [], 0⟩,
-                ⟨[1, 2], [⟨10, 20, 4, 4⟩], false, [], 0⟩],
-    remote := "origin".toList, refs := [("origin/release/10.20".toList, 3)] }
-
-def exApp : Hist Pins :=
-  { commits := [⟨[], [⟨5, 1, 1, 1⟩], false, [(2, (10, 20, 2))], 0⟩, ⟨[0], [⟨5, 1, 2, 2⟩], false, [(2, (10, 20, 4))], 0⟩],
-    remote := "origin".toList, refs := [("origin/release/5.1".toList, 1)] }
-
 example : (analyse [⟨0, [2], exApp⟩, ⟨2, [], exLib⟩]).map (fun r => (r.1.map (·.id), r.2)) = .ok ([2, 0],
     [⟨2, 0, 0, "release/5.1".toList, ⟨5, 1, 1, 1⟩⟩, ⟨2, 2, 0, "release/5.1".toList, ⟨5, 1, 1, 1⟩⟩,
      ⟨2, 1, 0, "release/5.1".toList, ⟨5, 1, 2, 2⟩⟩, ⟨2, 3, 0, "release/5.1".toList, ⟨5, 1, 2, 2⟩⟩]) := by
@@ -400,5 +450,39 @@ builds (so the later pin contains the earlier one) -/
 example : (rgraph exLib (mkPlug [])).map (fun g =>
     (pinRb exApp 2 g 0, pinRb exApp 2 g 1, (g.findBuild 3).map (·.parents))) = .ok (some 2, some 3, some [1, 2]) := by
   decide +kernel
+
+/-! ### the hypotheses of the conditional theorems hold on this example
+
+The objects (`Lemmas/GhistExample.lean`) are the ones the driver computes, see `analysis_registrations`: `gLib` is the
+graph of the component, `gApp` the graph of the parent built with it, `bApp` / `rbApp` the parent's release branch and
+its result. -/
+
+/-- **non-vacuity** of the hypotheses shared by `reported_bump`, `skipped_version`, `included_first_spec_partial`,
+`included_first_exists_partial` (and, as a part of them, of `bumps_recorded` … `bump_build_reported_partial`): on the
+diamond example they all hold, so the theorem applies to the builds of the parent branch -/
+example (bd : RB Bumps) (hbd : bd ∈ rbApp.rbuilds) (e : Nat) (hbe : BuildAt gApp.rcs bd e) (hbn : bd.bn ≠ fakeNM)
+    (l : List Reg) (hl : regsOfBuild 0 rbApp.name 2 gLib bd = .ok l) (x : Nat) :
+    (⟨2, x, 0, rbApp.name, bd.bn⟩ : Reg) ∈ l ↔
+      ∃ t, pinRb exApp 2 gLib e = some t ∧ RbAnc gLib x t ∧
+        ∀ e', SpecBuild exApp ((branchesOf exApp).take 0) bApp e' → e' ≠ e → Anc exApp e' e →
+          ∀ t', pinRb exApp 2 gLib e' = some t' → ¬ RbAnc gLib x t' := by
+  refine included_first_spec_partial [(2, gLib)] exApp exApp_topo exApp_window exApp_compWindow gApp gApp_ok 0 bApp rbApp
+    bApp_ok rbApp_ok 2 gLib (by intro g' hg'; simpa using hg') (by simp) gLib_ne ?_ ?_ bd hbd e hbe hbn 0 l hl x
+  · intro e' hs
+    rcases specBuild_le hs with rfl | rfl
+    · exact ⟨_, _, rfl, rfl⟩
+    · exact ⟨_, _, rfl, rfl⟩
+  · intro e1 e2 hs1 hs2 hanc t1 ht1
+    have hle := hanc.le exApp_topo
+    rcases specBuild_le hs1 with rfl | rfl <;> rcases specBuild_le hs2 with rfl | rfl
+    · rw [pin0] at ht1; cases ht1; exact ⟨2, pin0, rb22⟩
+    · rw [pin0] at ht1; cases ht1; exact ⟨3, pin1, rb23⟩
+    · omega
+    · rw [pin1] at ht1; cases ht1; exact ⟨3, pin1, rb33⟩
+
+/-- … and the window is not empty: the branch has a reported build at commit 1 whose registrations are the two
+component builds that are new in its version -/
+example : (rbApp.rbuilds.map fun b => (b.rcommit, b.bn, (regsOfBuild 0 rbApp.name 2 gLib b).toOption.map (·.map (·.iid)))) =
+    [(some 0, ⟨5, 1, 1, 1⟩, some [0, 2]), (some 1, ⟨5, 1, 2, 2⟩, some [1, 3])] := by decide +kernel
 
 end C07
